@@ -512,6 +512,7 @@ void DNS::convert_records(const uint8_t* ptr,
 }
 
 // no length checks, records should already be valid
+// Returns a pointer to the first byte after the domain name
 uint8_t* DNS::update_dname(uint8_t* ptr, uint32_t threshold, uint32_t offset) {
     while (*ptr != 0) {
         if ((*ptr & 0xc0)) {
@@ -522,14 +523,14 @@ uint8_t* DNS::update_dname(uint8_t* ptr, uint32_t threshold, uint32_t offset) {
                 index = Endian::host_to_be<uint16_t>((index + offset) | 0xc000);
                 memcpy(ptr, &index, sizeof(uint16_t));
             }
-            ptr += sizeof(uint16_t);
-            break;
+            return ptr + sizeof(uint16_t);
         }
         else {
             ptr += *ptr + 1;
         }
     }
-    return ptr;
+    // Skip the null terminator
+    return ptr + 1;
 }
 
 // Updates offsets in domain names inside records.
